@@ -229,6 +229,34 @@ func newVM() *otto.Otto {
 		must(err)
 		return v
 	}))
+	must(vm.Set("__gosl", func(c otto.FunctionCall) otto.Value {
+		// a Go slice (or, with a leading *, a pointer to a Go array) of the given numeric element
+		// kind, bridged the way a Go result or field is
+		spec, _ := c.Argument(0).ToString()
+		ptrArray := strings.HasPrefix(spec, "*")
+		et := m16.TypeOf(strings.TrimPrefix(spec, "*"))
+		list := c.Argument(1).Object()
+		lv, _ := list.Get("length")
+		n64, _ := lv.ToInteger()
+		n := int(n64)
+		g := m16.GV{K: "list"}
+		for i := 0; i < n; i++ {
+			ev, _ := list.Get(strconv.Itoa(i))
+			text, _ := ev.ToString()
+			g.Elems = append(g.Elems, m16.Num(text))
+		}
+		var x interface{}
+		if ptrArray {
+			p := reflect.New(reflect.ArrayOf(n, et))
+			p.Elem().Set(m16.Build(reflect.ArrayOf(n, et), g))
+			x = p.Interface()
+		} else {
+			x = m16.Build(reflect.SliceOf(et), g).Interface()
+		}
+		v, err := c.Otto.ToValue(x)
+		must(err)
+		return v
+	}))
 	for _, f := range m16.Fixtures {
 		must(vm.Set("G_"+f.Name, f.Make()))
 	}
@@ -412,11 +440,11 @@ func viewNames(c *liveCont) []string {
 	case "pstruct", "vstruct":
 		return append(structNames(c.typ), "hid", "zzz")
 	case "map":
-		return []string{"zzz", "Total"}
+		return []string{"zzz", "Total", "Get", "Len", "Del"}
 	}
 	if c.spec.Kind == "field" && c.typ.Kind() == reflect.Struct {
 		if f, ok := c.typ.FieldByName(c.spec.Field); ok && f.Type.Kind() == reflect.Map {
-			return []string{"zzz", "Total"}
+			return []string{"zzz", "Total", "Get", "Len", "Del"}
 		}
 	}
 	return []string{"zzz", "hid"}
